@@ -38,7 +38,15 @@ def cases(tier: str):
                     restarts = [("same", None), ("whole", None)] + [("deps", t) for t in range(n)] + ([("target", t) for t in range(n)] if not q else [])
                     for rk, rt in restarts:
                         for other_input in ((False, True) if with_param else (False,)):
-                            yield dict(n=n, es=es, with_param=with_param, caching=[ck, ct], restart=[rk, rt], other_input=other_input)
+                            yield dict(n=n, es=es, with_param=with_param, caching=[ck, ct], restart=[rk, rt], other_input=other_input,
+                                       chain=(n <= 3 and not other_input and rk in ("same", "deps")))
+    # cache_deps_of naming two nodes; cache_deps_of with a debug node downstream and RUN_DEBUG_NODES on
+    for n in (2, 3, 4):
+        for es in shapes(n):
+            if n == 4 and len(es) > 3:
+                continue
+            yield dict(n=n, es=es, special="deps2")
+            yield dict(n=n, es=es, special="deps_debug")
 
 
 def kw_of(ids, kind, t, path, mode):
@@ -57,7 +65,83 @@ def sel_of(p, kind, t):
     return set(range(len(p.nodes)))
 
 
+def run_special(acc, c):
+    """cache_deps_of=[a, b]: the file holds everything a and b depend on but neither a's nor b's result, and the restart
+    executes exactly a and b. With RUN_DEBUG_NODES on and debug nodes downstream of n, cache_deps_of=[n] still excludes n."""
+    import itertools
+
+    from tawazi import cfg
+
+    n = c["n"]
+    es = [tuple(e) for e in c["es"]]
+    acc.cases += 1
+    tmp = os.environ.get("VERIF_TMP", "/tmp")
+    path = os.path.join(tmp, "cache_s.pkl")
+    if c["special"] == "deps2":
+        p = make_prog(n, es, False)
+        ids = p.ids()
+        for a, b in itertools.combinations(range(n), 2):
+            d1, _ = build_gprog(p)
+            res1 = H.run_controlled(lambda: d1.executor(cache_deps_of=[ids[a], ids[b]], cache_in=path)())
+            acc.evaluations += 1
+            if res1.outcome != "return":
+                acc.violation(V("caching_run_failed", f"cache_deps_of=[{ids[a]}, {ids[b]}] raised {res1.exc!r}"), c, (), res1.trace, p.source())
+                continue
+            content = pickle.load(open(path, "rb"))  # noqa: S301
+            deps = (p.anc(a) | p.anc(b)) - {a, b}
+            have = {i for i in range(n) if ids[i] in content}
+            if have != deps:
+                acc.violation(V("deps2_file", f"cache_deps_of=[{ids[a]}, {ids[b]}]: file holds {[ids[i] for i in sorted(have)]}, expected the dependencies {[ids[i] for i in sorted(deps)]}"),
+                              dict(c, a=a, b=b), (), res1.trace, p.source())
+            d2, _ = build_gprog(p)
+            res2 = H.run_controlled(lambda: d2.executor(cache_deps_of=[ids[a], ids[b]], from_cache=path)())
+            acc.evaluations += 1
+            ent = {e[1] for e in res2.trace if e[0] == "enter"}
+            if res2.outcome != "return" or ent != {ids[a], ids[b]}:
+                acc.violation(V("deps2_round_trip", f"cache_deps_of=[{ids[a]}, {ids[b]}] round trip entered {sorted(ent)} ({res2.outcome} {res2.exc!r})"),
+                              dict(c, a=a, b=b), (), res2.trace, p.source())
+            acc.mark_nontrivial((repr(c), a, b))
+    else:
+        from .c03 import down_closed_sets
+        cfg.RUN_DEBUG_NODES = True
+        try:
+            for dbg in down_closed_sets(n, es):
+                if len(dbg) == n:
+                    continue
+                p = prog_of(dict(n=n, es=es, res="t" * n, mc=2, debug=list(dbg)))
+                ids = p.ids()
+                for t in range(n):
+                    if t in dbg:
+                        continue
+                    d1, _ = build_gprog(p)
+                    res1 = H.run_controlled(lambda: d1.executor(cache_deps_of=[ids[t]], cache_in=path)())
+                    acc.evaluations += 1
+                    if res1.outcome != "return":
+                        acc.violation(V("caching_run_failed", f"cache_deps_of=[{ids[t]}] with debug nodes {dbg} raised {res1.exc!r}"), c, (), res1.trace, p.source())
+                        continue
+                    content = pickle.load(open(path, "rb"))  # noqa: S301
+                    if ids[t] in content or any(ids[i] not in content for i in p.anc(t)):
+                        acc.violation(V("deps_debug_file", f"cache_deps_of=[{ids[t]}] with debug nodes {list(dbg)} (RUN_DEBUG_NODES on): file holds {sorted(k for k in content if k in ids)}"),
+                                      dict(c, t=t, dbg=list(dbg)), (), res1.trace, p.source())
+                    d2, _ = build_gprog(p)
+                    res2 = H.run_controlled(lambda: d2.executor(cache_deps_of=[ids[t]], from_cache=path)())
+                    acc.evaluations += 1
+                    ent = {e[1] for e in res2.trace if e[0] == "enter"}
+                    if res2.outcome != "return" or ids[t] not in ent or any(ids[i] in ent for i in p.anc(t)):
+                        acc.violation(V("deps_debug_round_trip", f"cache_deps_of=[{ids[t]}] round trip with debug nodes {list(dbg)} entered {sorted(ent)}"),
+                                      dict(c, t=t, dbg=list(dbg)), (), res2.trace, p.source())
+                    acc.mark_nontrivial((repr(c), t, tuple(dbg)))
+        finally:
+            cfg.RUN_DEBUG_NODES = False
+    acc.states += 1
+    acc.transitions += 1
+    if os.path.exists(path):
+        os.remove(path)
+
+
 def run_one(acc, c):
+    if c.get("special"):
+        return run_special(acc, c)
     p = make_prog(c["n"], [tuple(e) for e in c["es"]], c["with_param"])
     ids = p.ids()
     src = p.source()
@@ -130,6 +214,38 @@ def run_one(acc, c):
         exp_ent = [ids[rt]] if not (ck == "whole") else []
         if ck == "deps" and ent != exp_ent:
             acc.violation(V("deps_round_trip", f"cache_deps_of=[{ids[rt]}] round trip entered {ent}, expected exactly {exp_ent}"), c, (), res2.trace, src)
+    # ---- a restart that is itself a caching run (from_cache=F, cache_in=G), then a third run from G
+    if c.get("chain"):
+        path2 = os.path.join(tmp, "cache2.pkl")
+        if os.path.exists(path2):
+            os.remove(path2)
+        d3, _ = build_gprog(p)
+        kw3 = kw_of(ids, rk, rt, path, "r")
+        kw3["cache_in"] = path2
+        res3 = H.run_controlled(lambda: d3.executor(**kw3)(*args2))
+        acc.evaluations += 1
+        if res3.outcome != "return":
+            acc.violation(V("chained_restart_failed", f"from_cache + cache_in run raised {res3.exc!r}"), c, (), res3.trace, src)
+        else:
+            with open(path2, "rb") as f:
+                content2 = pickle.load(f)  # noqa: S301
+            have2 = {i for i in range(len(ids)) if ids[i] in content2}
+            ran3 = {ids.index(x) for x in {e[1] for e in res3.trace if e[0] == "enter"} if x in ids}
+            want2 = (cached & sel2) | ran3
+            if rk == "deps":
+                want2 -= {rt}
+            if not want2 <= have2:
+                acc.violation(V("chained_cache_lost_results", f"run from_cache={c['caching']} cache_in=G ({c['restart']}): G lacks {[ids[i] for i in sorted(want2 - have2)]} (reused or computed by that run)"),
+                              c, (), res3.trace, src)
+            d4, _ = build_gprog(p)
+            res4 = H.run_controlled(lambda: d4.executor(**kw_of(ids, rk, rt, path2, "r"))(*args2))
+            acc.evaluations += 1
+            ent4 = {e[1] for e in res4.trace if e[0] == "enter"}
+            exp4 = {ids[rt]} if rk == "deps" else set()
+            if res4.outcome != "return" or ent4 != exp4:
+                acc.violation(V("chained_restart_recomputed", f"third run from G entered {sorted(ent4)}, expected {sorted(exp4)} ({res4.outcome} {res4.exc!r})"), c, (), res4.trace, src)
+        if os.path.exists(path2):
+            os.remove(path2)
     if cached & sel2:
         acc.mark_nontrivial(repr(c))
     acc.states += 2
@@ -150,5 +266,5 @@ def replay(v):
     os.environ.setdefault("VERIF_TMP", "/tmp")
     a = Acc(ID, 0, 1, 600)
     c = v["case"]
-    run_one(a, {k: c[k] for k in ("n", "es", "with_param", "caching", "restart", "other_input")})
+    run_one(a, {k: c[k] for k in c if k not in ("a", "b", "t", "dbg")})
     return a.violations, None
